@@ -291,7 +291,8 @@ def task_wide(t):
     rep = run.Report()
     rec = sweep.Rec(rep)
     bdd, decl = sweep.wide_manager(nvars, env.SEED)
-    mine = sweep.shard(sweep.wide_subsets(nvars, 3), ns)[si]
+    kk = sweep.wide_k(nvars)
+    mine = sweep.shard(sweep.wide_subsets(nvars, kk), ns)[si]
     for lv in mine:
         names = tuple(decl[i] for i in lv)
         others = [i for i in range(nvars) if i not in lv]
@@ -300,6 +301,9 @@ def task_wide(t):
         U = Universe(names + ex)
         b = sweep.Builder(bdd, U)
         pas = list(partial_assignments(names))
+        if kk > 3:
+            # very wide manager: the assignments that fix four or five of the five variables
+            pas = [d for d in pas if len(d) >= kk - 1]
         rens = []
         for a_ in names:
             for c_ in names + ex:
@@ -307,8 +311,12 @@ def task_wide(t):
                     rens.append({a_: c_})
         rens.append({names[0]: names[1], names[1]: names[0]})
         rens.append({names[0]: ex[0], names[2]: ex[-1]})
+        if kk > 3:
+            rens.append(dict(zip(names, names[1:] + names[:1])))
+            rens.append(dict(zip(names, reversed(names))))
+            rens.append(dict(zip(names[:3], ex)))
         G = [U.var(ex[0]), U.var(names[1]) & U.var(ex[-1]), U.full ^ U.var(names[2])]
-        for fu in U.all_functions(names):
+        for fu in sweep.wide_functions(U, names):
             if focus is not None and sweep.norm([lv, fu]) != sweep.norm(focus):
                 continue
             case0 = dict(task=t[:-1] + ([list(lv), fu],), levels=list(lv), u=U.fmt(fu))
@@ -355,6 +363,7 @@ def dispatch(t):
 
 def plan(tier):
     ts = [('wide', 10, si, 16, None) for si in range(16)]
+    ts += [('wide', sweep.XWIDE, si, 16, None) for si in range(16)]
     if tier == 'quick':
         for oi in range(6):
             for ctx in ('K0', 'K1'):
